@@ -35,9 +35,10 @@ TBegR  == Ev.ev = "beginr" /\ Begin(Ev.c, "r") /\ After(Ev.c)
 TPut   == Ev.ev = "cput" /\ CPut(Ev.c, Ev.k, Ev.v) /\ After(Ev.c)
 TGet   == Ev.ev = "cget" /\ CGet(Ev.c, Ev.k) /\ After(Ev.c) /\ (Ev.out = "ok" => last'.val = Ev.val)
 TEnd   == Ev.ev = "end" /\ End(Ev.c) /\ After(Ev.c)
+TEndX  == Ev.ev = "endexc" /\ EndExc(Ev.c) /\ After(Ev.c)
 TFlush == Ev.ev = "cflush" /\ CFlush(Ev.c) /\ After(Ev.c)
 Step == /\ ti <= NT /\ l <= Len(Tr)
-        /\ (TMake \/ TBegW \/ TBegR \/ TPut \/ TGet \/ TEnd \/ TFlush)
+        /\ (TMake \/ TBegW \/ TBegR \/ TPut \/ TGet \/ TEnd \/ TEndX \/ TFlush)
         /\ l' = l + 1 /\ ti' = ti
 Reset == /\ file' = [exists |-> FALSE, hdr |-> NoHdr, recs |-> <<>>]
          /\ cs' = [c \in Coll |-> [made |-> FALSE, st |-> "idle", keys |-> {}, queue |-> <<>>, used |-> 0,
